@@ -48,7 +48,7 @@ RSpecA == RInit /\ [][RNext]_rvars
 REmit == LET bad == Bad(bd0, bdT, bw, rd0, rdT, rw) IN
          PrintT(ToJson([bd0 |-> bd0, bdT |-> bdT, bw |-> bw, rd0 |-> rd0, rdT |-> rdT, rw |-> rw,
                         included |-> bad = {},
-                        witness |-> IF bad = {} THEN [n0 |-> "-", nT |-> "-", nA |-> "-", nF |-> "-"]
+                        witness |-> IF bad = {} THEN [n0 |-> "-", nT |-> "-", nA |-> "-", nF |-> "-", nU |-> "-"]
                                     ELSE Witness(bad),
                         bad |-> bad]))
 =============================================================================
